@@ -39,6 +39,9 @@ CHECKS["C04"] = dict(category="exploration", technique="Hypothesis-generated (st
 CHECKS["C16"] = dict(category="exploration", technique="Hypothesis-generated insert sequences under a run-time I/O recorder (names in tinyflux.storages rebound to proxies); metamorphic oracle: same inserts on an n-row database and on an empty twin must produce identical I/O call sequences; prefix and exact-bytes oracles on the file",
     text="Each generated sequence of single/multiple, in-order/out-of-order, compact/default inserts, interleaved with early-stopping reads, runs on a database pre-populated with n rows (up to 2 000 quick / 50 000 thorough) and on an empty twin while every I/O call made by tinyflux.storages is recorded: old bytes must be a prefix of new bytes, the appended bytes must be exactly the encoded rows, no read/open/temp/copy/rename may occur, and the per-insert call sequence must be identical at both sizes.",
     note="Observes I/O at the level of file-object methods and os/shutil calls made from tinyflux.storages (an audit hook turns I/O that bypasses the proxies into a harness error).", design="3/C16")
+CHECKS["C15"] = dict(category="exploration", technique="Hypothesis-generated histories per access mode with byte-for-byte file comparison and directory-listing invariants around every read / no-op / gated write",
+    text="Generated histories on CSV databases opened with access_mode r+, r, a or w+ mix real writes with reads, getters, iteration, reindex, removals that match nothing, updates that change nothing and writes the mode forbids; the file must be byte-identical across each of those calls, gated writes must raise OSError, and after every operation (returned or raised) the private temp directory must be empty and the database directory must hold only the database file.",
+    note="The temp directory is private per case (tempfile.tempdir); byte equality is the criterion, so a rewrite that reproduces identical bytes is not distinguishable.", design="3/C15")
 NA = {}
 checks = []
 for p in props:
